@@ -14,7 +14,7 @@ Part B (call form x function kind, spec/C08.tla): TLC enumerates the product, th
   cell, TLC judges this / arguments / length / name / new-return against the table in the specification.
 Python never computes an expected value.
 """
-import json, os, random, collections
+import json, os, random, collections, time
 from harness import tlc, engine
 from harness.common import Machinery, workdir
 from checks import c08_driver as drv
@@ -40,9 +40,12 @@ def listed(rep, part):
 
 
 # --------------------------------------------------------------------------------------------------
-def judge_traces(rep, recs, dv, tag):
+def judge_traces(rep, recs, dv, tag, cal=False):
     for r in recs:
         r["dv"] = dv
+        r["cal"] = cal
+    if not recs:
+        return {}, 0, 0
     out, st, tr, wall = tlc.judge(rep.pid, "C08_Trace", recs, TRACE_CFG, tag=tag, timeout=2400,
                                   shards=min(16, max(1, len(recs) // 40)))
     got = {v["id"]: v for v in out}
@@ -51,28 +54,37 @@ def judge_traces(rep, recs, dv, tag):
     return got, st, tr
 
 
-def search_devset(rep, viol_recs, dv):
-    """The engine may have some of the listed defects repaired: look (greedily, verdicts by TLC) for the subset
-    of listed deviations under which the violating traces are explained."""
-    sample = viol_recs[:48]
-    cur = list(dv)
-
-    def count(d):
-        got, _, _ = judge_traces(rep, [dict(r) for r in sample], d, "search")
-        return sum(1 for v in got.values() if v["cnt"]["viol"] > 0)
-    best = count(cur)
-    while best > 0 and cur:
-        trials = [(count([x for x in cur if x != d]), d) for d in cur]
-        n, d = min(trials)
-        if n >= best:
+def calibrate(rep, recs, got, dv):
+    """The engine may have some of the listed defects repaired.  When traces are violated, TLC re-judges them in
+    calibration mode: wherever the engine followed the reference although the as-is model predicts otherwise,
+    C08_Trace names the deviations whose removal makes the as-is model agree (`anti`).  Deviations with such
+    counter-evidence and without a single necessary attribution in the whole run are dropped and the violated
+    traces are judged again; the result is kept only if it is better."""
+    sure = collections.Counter(m["dev"] for v in got.values() for m in v["mis"] if m["v"] == "known")
+    for _ in range(4):
+        viol = [r for r in recs if got[r["id"]]["cnt"]["viol"] > 0]
+        if not viol or not dv:
             break
-        best, cur = n, [x for x in cur if x != d]
-    return cur
+        g1, st, tr = judge_traces(rep, [dict(r) for r in viol[:400]], dv, "calib", cal=True)
+        rep.add_judge(0, st, tr)
+        anti = collections.Counter(d for v in g1.values() for d in v["anti"])
+        cand = [d for d in dv if not (anti[d] > 0 and sure[d] == 0)]
+        if cand == dv:
+            break
+        g2, st, tr = judge_traces(rep, [dict(r) for r in viol], cand, "rejudge")
+        rep.add_judge(0, st, tr)
+        if sum(v["cnt"]["viol"] for v in g2.values()) >= sum(got[r["id"]]["cnt"]["viol"] for r in viol):
+            break
+        got.update(g2)
+        dv = cand
+    return dv
 
 
 def part_histories(rep):
     quick = rep.tier == "quick"
     pid = rep.pid
+    phases = rep.notes.setdefault("phase_wall_s", {})
+    t0 = time.time()
     # ---- 1. model checking + enumeration -------------------------------------------------------------
     res = tlc.run(pid, "C08", ENUM_CFG % 0, env={"MAXLEN": "2"}, timeout=900, tag="enum2")
     rep.add_tlc("ObjModel histories<=2, full alphabet (ModelInv, Frame)", res)
@@ -97,6 +109,8 @@ def part_histories(rep):
                 hists.setdefault(hkey(x["h"]), x["h"])
         rep.spaces.append({"space": "all histories of length <= 3 over the core alphabet", "cases": len(hists) - n2,
                            "complete": True})
+    phases["enumerate+modelcheck"] = round(time.time() - t0, 1)
+    t0 = time.time()
     flat_n = len(bat["on"]) * len(bat["objs"]) + len(bat["glob"])
     bpath = os.path.join(workdir(pid), "battery.json")
     with open(bpath, "w") as f:
@@ -105,7 +119,7 @@ def part_histories(rep):
     for h in hists.values():
         cases.append({"id": len(cases), "h": h, "observe": "last", "battery": bpath, "src": "enum"})
     # ---- 2. simulation walks ----------------------------------------------------------------------------
-    per_worker = 50 if quick else 250
+    per_worker = 32 if quick else 250
     sim = tlc.run(pid, "C08", SIM_CFG, env={"MAXLEN": "12"}, timeout=900, tag="sim", simulate="num=%d" % per_worker,
                   depth=14, seed=rep.seed)
     rep.add_tlc("ObjModel -simulate walks depth 12", sim)
@@ -136,57 +150,64 @@ def part_histories(rep):
             nrand += 1
         rep.spaces.append({"space": "seeded random histories, length <= 25, cut by the spec at the first inapplicable operation",
                            "cases": nrand, "complete": False})
-    # ---- 4. replay into the engine --------------------------------------------------------------------------
-    results = engine.run_cases(pid, cases, driver="checks.c08_driver:hist_driver", timeout=3000)
+    phases["simulate"] = round(time.time() - t0, 1)
+    t0 = time.time()
+    # ---- 4./5. replay into the engine, trace validation (in chunks: bounded memory) -----------------------------
     byid = {c["id"]: c for c in cases}
-    recs = []
-    for r in results:
-        c = byid[r["id"]]
-        if r["cut"].startswith("setup:"):
-            raise Machinery("setup script failed: " + r["cut"])
-        for s in r["steps"]:
-            if s["obs"] and len(s["obs"]) != flat_n:
-                raise Machinery("observation vector of length %d, battery has %d" % (len(s["obs"]), flat_n))
-        recs.append({"id": r["id"], "h": c["h"], "steps": r["steps"], "cut": r["cut"]})
-    # ---- 5. trace validation ------------------------------------------------------------------------------------
     dv = listed(rep, "objmodel")
-    got, st, tr = judge_traces(rep, recs, dv, "trace")
-    rep.add_judge(len(recs), st, tr)
-    viol = [r for r in recs if got[r["id"]]["cnt"]["viol"] > 0]
-    used = dv
-    if viol and dv:
-        used = search_devset(rep, viol, dv)
-        if used != dv:
-            g2, st2, tr2 = judge_traces(rep, [dict(r) for r in viol], used, "rejudge")
-            rep.add_judge(0, st2, tr2)
-            got.update(g2)
-    rep.notes["deviations_in_force"] = used
-    steps = obs = skipped = 0
+    got, viol_recs = {}, []
     cuts = collections.Counter()
-    for r in recs:
-        v = got[r["id"]]
-        c = byid[r["id"]]
+    t_eng = t_judge = 0.0
+    CH = 24000
+    for lo in range(0, len(cases), CH):
+        t0 = time.time()
+        results = engine.run_cases(pid, cases[lo:lo + CH], driver="checks.c08_driver:hist_driver", timeout=3000)
+        t_eng += time.time() - t0
+        recs = []
+        for r in results:
+            c = byid[r["id"]]
+            if r["cut"].startswith("setup:"):
+                raise Machinery("setup script failed: " + r["cut"])
+            for s in r["steps"]:
+                if s["obs"] and len(s["obs"]) != flat_n:
+                    raise Machinery("observation vector of length %d, battery has %d" % (len(s["obs"]), flat_n))
+            if r["cut"]:
+                cuts[r["cut"]] += 1
+            recs.append({"id": r["id"], "h": c["h"], "steps": r["steps"], "cut": r["cut"]})
+        del results
+        t0 = time.time()
+        g, st, tr = judge_traces(rep, recs, dv, "trace")
+        t_judge += time.time() - t0
+        rep.add_judge(len(recs), st, tr)
+        got.update(g)
+        viol_recs += [r for r in recs if g[r["id"]]["cnt"]["viol"] > 0][:2000]
+        del recs
+    phases["engine_replay"] = round(t_eng, 1)
+    t0 = time.time()
+    rep.notes["deviations_in_force"] = calibrate(rep, viol_recs, got, dv)
+    phases["trace_validation"] = round(t_judge + time.time() - t0, 1)
+    steps = obs = skipped = 0
+    for c in cases:
+        v = got[c["id"]]
         steps += v["cnt"]["steps"]
         obs += v["cnt"]["obs"]
         if v["status"] == "inapplicable":
             if c["src"] != "random":
                 raise Machinery("the spec calls its own history inapplicable: %s" % show_hist(c["h"]))
             skipped += 1
-        if r["cut"]:
-            cuts[r["cut"]] += 1
         for m in v["mis"]:
             what = "step outcome" if m["j"] == 0 else drv.render_obs(m["ob"])
             label = "%s  ==>  %s" % (show_hist(c["h"], m["l"]), what)
             detail = {"expected": m["exp"], "actual": m["act"], "step": m["l"], "clause": m["ob"], "history": c["h"],
                       "source": c["src"]}
-            rep.mismatch(label, detail, dev=m["dev"] if m["v"] == "known" else "")
+            rep.mismatch(label, detail, dev=m["dev"].lstrip("?") if m["v"] == "known" else "")
         if not v["mis"] and len(rep.samples) < 2:
             rep.sample({"history": show_hist(c["h"]), "observations_judged": v["cnt"]["obs"], "verdict": "pass"})
-    for r in recs:                                   # one sample with a known finding, one long walk
-        v = got[r["id"]]
-        if len(rep.samples) < 4 and v["mis"] and byid[r["id"]]["src"] == "walk":
+    for c in cases:                                  # one sample with a known finding, from a long walk
+        v = got[c["id"]]
+        if len(rep.samples) < 4 and v["mis"] and c["src"] == "walk":
             m = v["mis"][0]
-            rep.sample({"history": show_hist(byid[r["id"]]["h"], m["l"]), "observation": drv.render_obs(m["ob"]) if m["j"] else "step",
+            rep.sample({"history": show_hist(c["h"], m["l"]), "observation": drv.render_obs(m["ob"]) if m["j"] else "step",
                         "reference": m["exp"], "engine": m["act"], "verdict": m["v"], "deviation": m["dev"]})
             break
     rep.notes["steps_judged"] = steps
@@ -194,7 +215,7 @@ def part_histories(rep):
     rep.notes["histories_cut"] = dict(cuts)
     rep.notes["random_histories_cut_as_inapplicable"] = skipped
     rep.notes["histories"] = {"enumerated": len(hists), "walks": len(walks), "random": nrand}
-    return len(recs)
+    return len(cases)
 
 
 def random_history(rnd, universe):
@@ -255,7 +276,9 @@ def part_callforms(rep):
 
 def run(rep):
     n1 = part_histories(rep)
+    t0 = time.time()
     n2 = part_callforms(rep)
+    rep.notes["phase_wall_s"]["call_forms"] = round(time.time() - t0, 1)
     rep.evaluations = rep.notes["observations_judged"] + n2
     rep.exhaustive = True
     rep.notes["rule"] = ("one trace per history (distinct operation sequences), every recorded observation judged; "
